@@ -310,6 +310,10 @@ def units(tier):
         for kind in ("sync", "async"):
             ll = L - 1 if (fn in heavy and quick) else L
             us.append({"name": "%s %s L=%d" % (fn, kind, ll), "fn": diff, "params": {"fn": fn, "kind": kind, "L": ll}, "budget_s": 240 if quick else 1200})
+    if not quick:
+        light = [f for f in FUNCS if f not in heavy and f not in ("count", "cycle", "repeat", "batched", "batched_strict", "islice1")]
+        for fn in light:
+            us.append({"name": "%s sync L=5" % fn, "fn": diff, "params": {"fn": fn, "kind": "sync", "L": 5}, "budget_s": 1500})
     for nc in ((2,) if quick else (2, 3)):
         for kind in ("sync", "async"):
             us.append({"name": "tee nc=%d %s" % (nc, kind), "fn": tee_scn, "params": {"nc": nc, "L": 2 if quick else 3, "kind": kind}, "budget_s": 240 if quick else 1200})
